@@ -7,7 +7,7 @@
    the model's op/out types; every operation calls the generated function of that name on
    (q.data, q.cmp) with fuel 2 + len (above every bound of the ties) and returns its results and
    the calls of q.move it made, in order, as the step's move log.  [ghist G P q ops] is
-   HeapqSpec.hist with [gstep] in the place of the model's [step]: as long as the guard G admits
+   HeapqSpec.hist with [gstep] in the place of the model's [step]: as long as the guard G lets through
    the next op, the generated step answers Ok (no panic, no fuel exhaustion) and satisfies P.
    Conventions (spelled out in HeapqSource.v): Front's zero value is told from an element by the
    generated IsEmpty; the panic("index out of range") of Remove/Peek for n < 0 is recorded as
